@@ -336,7 +336,9 @@ class ElfiModel(GraphicalModel):
         obs = None
         if updating_name in self.observed:
             update_observed = True
-            obs = self.observed.pop(updating_name)
+            # (popped by remove_node below; do not pop here so that a refused update
+            # leaves the model untouched)
+            obs = self.observed[updating_name]
 
         super(ElfiModel, self).update_node(name, updating_name)
 
